@@ -1,3 +1,5 @@
+\* vacuity guard / regression guard: WITHOUT the sender-time filter (LocalReplicaHandle on the
+\* pinned tree) a late Abort releases a replica that re-accepted the proposer: two winners.
 CONSTANTS
   Nodes = {1, 2, 3}
   Writers = {1, 2}
@@ -11,5 +13,6 @@ CONSTANTS
 INIT Init
 NEXT Next
 VIEW view
+ACTION_CONSTRAINT DWScope
 INVARIANTS OneWinnerPerVersion
 CHECK_DEADLOCK FALSE
